@@ -39,6 +39,10 @@ class NumpyEncoder(json.JSONEncoder):
     def default(self, obj):
         if isinstance(obj, np.ndarray):
             return obj.tolist()
+        if isinstance(obj, np.generic): # a NumPy scalar, e.g. the result of +/[1 2 3]
+            return obj.item()
+        if obj is KLONG_UNDEFINED: # a JSON null is delivered as :undefined, so :undefined is sent as null
+            return None
         return json.JSONEncoder.default(self, obj)
 
 
